@@ -115,6 +115,19 @@ def run(ctx):
                           "%s no longer compares against %s (found %s): a value may be stored in a width whose reserved codes it collides with" % (
                               key, sorted(need - consts), sorted(consts)), f.loc())
 
+    # side condition of the tabled string-map casts: the value compared with the IntN limits is the MAXIMUM index
+    fs = ctx.anchor("C10.R1", "noodles_bcf::record::codec::encoder::string_map::write_string_map_indices")
+    if fs is not None:
+        cmps = [(b, ops) for b, kind, ops, t_t, f_t in R._cmp_switches(fs) if kind in ("Le", "Lt") and
+                any(C.eval_const(fs, o) in (127, 32767) for o in ops)]
+        ok = bool(cmps) and all(any(R.derives_from_call(fs, o, R.mk_pred(r"iterator::Iterator::max$|Iterator>::max$")) for o in ops) for b, ops in cmps)
+        if ok:
+            ctx.ok("C10.R1", fs.key + " :: the width of the index vector is chosen from Iterator::max() of the indices", "%d comparison(s)" % len(cmps), fs.loc())
+        else:
+            ctx.violation("C10.R1", "C10.R1/width-from-max/" + fs.key,
+                          "write_string_map_indices no longer chooses the vector width from the maximum index: a larger, earlier index is "
+                          "truncated by the element casts (`i as i8` / `i as i16`) and reads back as another FILTER or a reserved code", fs.loc())
+
     ctx.rule("C10.R2", "A7 type descriptor codes and overflow nibble agree between encoder and both decoders; genotype coding constants")
     a7.table_agreement(ctx, "C10.R2", {"noodles_bcf"}, 2)
     R.const_rule(ctx, "C10.R2", "type length overflow nibble", {"n": "noodles_bcf::record::codec::encoder::value::ty::MAX_TYPE_LEN"},
